@@ -187,7 +187,8 @@ example : ∫ x, x ^ 3 ∂(finiteLaw (bernoulliPV (1/3))) = ((finiteMoment (bern
 
 /-- `DiscreteUniform.mgf`: `(e^{a t} − e^{(b+1) t}) / ((b − a + 1)(1 − e^t))` with `b + 1 = a + n`, `n` values.
     For `t ≠ 0` it is the mgf `(1/n) Σ_{i<n} e^{(a+i) t}` of the uniform law on `a, …, a+n−1`; at `t = 0` the
-    closed form is `0/0` (a removable singularity — the harness takes the limit there). -/
+    closed form is `0/0` (a removable singularity; the code special-cases `t = 0` and returns 1 since /repo 2c880c9,
+    the harness takes the limit of the generic branch for the derivatives). -/
 theorem discreteUniform_mgf_closed (a : ℤ) (n : ℕ) (hn : 0 < n) (t : ℝ) (ht : t ≠ 0) :
     (Real.exp ((a : ℝ) * t) - Real.exp (((a : ℝ) + (n : ℝ)) * t)) / ((n : ℝ) * (1 - Real.exp t))
       = ∑ i ∈ range n, (1 / (n : ℝ)) * Real.exp (((a : ℝ) + (i : ℝ)) * t) := by
